@@ -133,10 +133,11 @@ def run(ctx):
         elif s.ok:
             ctx.note("strict invariant %s holds in the model (no counterexample to replay)" % inv)
     # 5. simulated behaviours (the model's own history variable)
-    sim = ctx.tlc("bitswap/MCBitswap.tla", "bitswap/MCBitswap_sim.cfg", count=False, workers=4, timeout=300, deadlock=False,
-                  simulate="num=%d" % (150 if ctx.quick else 2000), depth=70, seed=ctx.seed)
+    sim = ctx.tlc("bitswap/MCBitswap.tla", "bitswap/MCBitswap_sim.cfg", count=False, workers=4 if ctx.quick else 8,
+                  timeout=300 if ctx.quick else 1200, deadlock=False,
+                  simulate="num=%d" % (150 if ctx.quick else 800), depth=70, seed=ctx.seed)
     seen = set()
-    want_n = 40 if ctx.quick else 400
+    want_n = 40 if ctx.quick else 300
     k = 0
     hs = [h for h in sim.printed.get("BEHAVIOUR", []) if isinstance(h, list)]
     hs.sort(key=lambda h: -len(h))      # a printed history extends earlier prints of the same run: longest first
